@@ -83,7 +83,28 @@ def helper_set(j):
     lvl0 = {p_ for p_, cs in callees.items() if any(ANCHOR_PRIMS.search(c) for c in cs)}
     lvl1 = {p_ for p_, cs in callees.items() if cs & lvl0}
     lvl2 = {p_ for p_, cs in callees.items() if cs & lvl1}
+    # ... except a thin forwarder: one crate callee, straight-line (a `rearm(i)` that only calls the ready-queue's `push(i)`)
+    def thin(p_):
+        b_ = bodies[p_]
+        crate_callees = {c for c in callees[p_] if c in bodies}
+        mutators = {q_ for q_, cs_ in callees.items() if any(re.search(r"core::pin::Pin::<.*>::set$", c_) for c_ in cs_)}
+        if len(crate_callees & lvl0) != 1 or (crate_callees & mutators) or len(b_["blocks"]) > 12:
+            return False          # more than a forwarder (the push primitive inserts into the slot map AND marks the slot)
+        for bi, blk in enumerate(b_["blocks"]):
+            if blk["cleanup"]:
+                continue
+            for s_ in _succs_json(blk["term"]):
+                if s_ <= bi and not b_["blocks"][s_]["cleanup"]:
+                    return False          # a back edge: a loop
+        return True
+    lvl1 = {p_ for p_ in lvl1 if p_ in lvl0 or not thin(p_)}
+    lvl2 = {p_ for p_, cs in callees.items() if cs & lvl1}
     interface = lvl0 | lvl1 | lvl2
+    private_traits = {f_["trait_decl"] for f_ in j["fns"] if f_.get("trait_decl") and f_["vis"].startswith("in ")}
+    private_trait_impl_methods = set()
+    for im in j["impls"]:
+        if im.get("trait") in private_traits and not im.get("negative"):
+            private_trait_impl_methods |= set(im.get("items", []))
     for path, b in bodies.items():
         f = fns.get(path)
         if f is None:
@@ -93,8 +114,8 @@ def helper_set(j):
         crate_helper_method = f["vis"] == "crate" and f.get("impl") is not None and not f.get("effective_pub") and path not in interface
         if not (private or crate_free_fn or crate_helper_method):
             continue           # pub items and the pub(crate) interface methods keep their bodies (roles are anchored on them)
-        if path.startswith("<"):
-            continue           # trait impl method
+        if path.startswith("<") and path not in private_trait_impl_methods:
+            continue           # trait impl method (those of a crate-private trait are shared helpers reached by static dispatch)
         if "::_::" in path:
             continue           # pin-project-lite generated code
         if path in taken:
@@ -233,6 +254,60 @@ def _subst_local(blk, frm, to):
         op(t["cond"])
 
 
+
+IMPLS = []          # the impl table of the fact file being canonicalised (set by inline_facts)
+
+
+def _bind_generics(c, t):
+    """Generic parameters of callee c that occur as the Self type of a crate-trait method call inside it, bound to the
+    concrete types of the call site t by matching the callee's parameter types against the argument types:
+    {param name: concrete type string}."""
+    names = set()
+    for blk in c["blocks"]:
+        ct = blk["term"]
+        if ct["k"] == "call" and ct["func"]["k"] == "const" and "fn" in ct["func"]:
+            fn = ct["func"]["fn"]
+            if fn.get("trait") and fn.get("local") and re.match(r"^[A-Z]\w*$", fn.get("self_ty") or "") and not fn.get("res"):
+                names.add(fn["self_ty"])
+    out = {}
+    for nm in names:
+        for k, a in enumerate(t["args"], start=1):
+            if k > c["arg_count"]:
+                break
+            pat = c["locals"][k]
+            if not re.search(r"(?<![\w:])%s(?![\w:])" % re.escape(nm), pat):
+                continue
+            aty = a["place"]["ty"] if a["k"] in ("copy", "move") else a.get("ty", "")
+            rx = "^" + re.sub(r"(?<![\w:])%s(?![\w:])" % re.escape(re.escape(nm)), "(.+)", re.escape(pat)) + "$"
+            try:
+                m = re.match(rx, aty)
+            except re.error:
+                m = None
+            if m:
+                out[nm] = m.group(1)
+                break
+    return out
+
+
+def _devirtualise(ct, bind):
+    """A call of a crate-trait method on a generic parameter that the inline site binds to a concrete type is the impl's method."""
+    f = ct["func"]
+    if not (f["k"] == "const" and "fn" in f):
+        return
+    fn = f["fn"]
+    if fn.get("res") or not fn.get("trait") or fn.get("self_ty") not in bind:
+        return
+    head = bind[fn["self_ty"]].split("<")[0]
+    meth = fn["def"].rsplit("::", 1)[1]
+    for im in IMPLS:
+        if im.get("trait") == fn["trait"] and (im.get("self_ty") or "").split("<")[0] == head and not im.get("negative"):
+            for it in im.get("items", []):
+                if it.endswith("::" + meth):
+                    fn["res"] = it
+                    fn["devirtualised"] = True
+                    return
+
+
 def inline_body(b, helpers, bodies, stats):
     """Inline helper calls in body JSON `b` (in place)."""
     depth = {i: 0 for i in range(len(b["blocks"]))}
@@ -264,12 +339,15 @@ def inline_body(b, helpers, bodies, stats):
             # a plain destination local takes the place of the callee's return local (the callee's `_0 = ..` become
             # assignments to the destination itself); a projected destination receives a final move
             direct = not dest["p"]
+            bind = _bind_generics(c, t)
             for cj, cblk in enumerate(c["blocks"]):
                 nb = copy.deepcopy(cblk)
                 _remap_block(nb, loff, boff)
                 if direct:
                     _subst_local(nb, loff, dest["l"])
                 ct = nb["term"]
+                if ct["k"] == "call" and bind:
+                    _devirtualise(ct, bind)
                 if ct["k"] == "return":
                     if not direct:
                         nb["stmts"].append({"k": "assign", "place": copy.deepcopy(dest),
@@ -1071,6 +1149,8 @@ def _only_captured(j, cpath):
 
 def inline_facts(j):
     """Inline helper calls in all function bodies of the fact JSON (in place).  Returns (helpers, stats)."""
+    global IMPLS
+    IMPLS = j.get("impls", [])
     helpers, bodies = helper_set(j)
     originals = {p: copy.deepcopy(b) for p, b in bodies.items() if p in helpers}
     stats = {}
